@@ -97,8 +97,8 @@ func loadFindings(path string) []*Finding {
 	}
 	for _, ln := range strings.Split(string(b), "\n") {
 		ln = strings.TrimSpace(ln)
-		if ln == "" || strings.HasPrefix(ln, "#") {
-			continue
+		if ln == "" || strings.HasPrefix(ln, "#") || strings.HasPrefix(ln, "fixed:") {
+			continue // "fixed:" lines document repaired defects and suppress nothing
 		}
 		f := &Finding{}
 		if err := json.Unmarshal([]byte(ln), f); err != nil {
